@@ -64,7 +64,7 @@ def _selects_by_len(arg, n):
 def run(ctx):
     repo = ctx.repo
     res = Result(PROP)
-    res.rules = ["Q-ORDER", "Q-FLAG", "Q-COPY", "Q-LABEL", "Q-SUB", "Q-UNION", "Q-DUAL", "Q-COMPL"]
+    res.rules = ["Q-ORDER", "Q-FLAG", "Q-COPY", "Q-LABEL", "Q-SUB", "Q-UNION", "Q-DUAL", "Q-COMPL", "Q-LCC"]
     res.explanation = (
         "Narrow claim: the cleanup methods of the three classes are conjunctions of steps whose guarantees hold only in one "
         "order; steps are identified at their call sites, their mutual order is decided by reachability on the CFG, their "
@@ -87,6 +87,7 @@ def run(ctx):
     check_relabel(repo, res)
     check_union_dual(repo, res)
     check_complement(repo, res)
+    check_lcc(repo, res)
     gv = repo.modules.get("xgi.core.globalviews")
     sub = gv.functions.get("subhypergraph") if gv else None
     if sub is None:
@@ -105,6 +106,114 @@ def run(ctx):
                  lambda nd: f"`{unparse(nd, 60)}` decides by truthiness whether a selection was given; an empty selection (an empty list, or an empty view such as the result of a filter) is then treated as 'everything' instead of 'nothing'",
                  "optional selections defaulted through truthiness")
     return res
+
+
+def check_lcc(repo, res):
+    """Q-LCC: largest_connected_hypergraph selects ONE component (max(..., key=len) / largest_connected_component) and
+    both of its modes are defined by that very object: the copy is subhypergraph(H, nodes=<it>), the in-place mode
+    removes exactly the nodes outside <it>.  A removal decided by anything else (sizes, positions in a list of
+    components) keeps or drops other components when sizes tie."""
+    mod = repo.modules.get("xgi.algorithms.connected")
+    fn = mod.functions.get("largest_connected_hypergraph") if mod else None
+    if fn is None:
+        raise AnalysisError("largest_connected_hypergraph not found (anchor vanished)")
+    once = {}
+    for st in own_statements(fn.node):
+        if isinstance(st, ast.Assign) and len(st.targets) == 1 and isinstance(st.targets[0], ast.Name):
+            once.setdefault(st.targets[0].id, []).append(st.value)
+
+    def is_selection(e):
+        if isinstance(e, ast.Call):
+            nm = getattr(e.func, "attr", getattr(e.func, "id", None))
+            if nm == "max" and any(k.arg == "key" and getattr(k.value, "id", None) == "len" for k in e.keywords):
+                return True
+            if nm == "largest_connected_component":
+                return True
+        return False
+
+    sel = [k for k, v in once.items() if len(v) == 1 and is_selection(v[0])]
+    if len(sel) != 1:
+        raise AnalysisError("largest_connected_hypergraph: the selected component (max(..., key=len)) is not bound to one local name (extractor does not recognise the code)")
+    C = sel[0]
+    hname = fn.params[0]
+
+    def deref(e, depth=0):
+        while isinstance(e, ast.Name) and e.id in once and len(once[e.id]) == 1 and e.id != C and depth < 4:
+            e = once[e.id][0]
+            depth += 1
+        return e
+
+    def all_nodes(e):
+        e = deref(e)
+        if isinstance(e, ast.Attribute) and e.attr in ("nodes", "_node") and isinstance(e.value, ast.Name) and e.value.id == hname:
+            return True
+        if isinstance(e, ast.Call) and getattr(e.func, "id", None) in ("set", "list", "frozenset", "tuple") and len(e.args) == 1:
+            return all_nodes(e.args[0])
+        return False
+
+    def is_C(e):
+        e2 = e
+        if isinstance(e2, ast.Call) and getattr(e2.func, "id", None) in ("set", "frozenset", "list") and len(e2.args) == 1:
+            e2 = e2.args[0]
+        return isinstance(e2, ast.Name) and e2.id == C
+
+    def complement_of_C(e):
+        e = deref(e)
+        if isinstance(e, ast.Call) and getattr(e.func, "attr", None) == "difference" and len(e.args) == 1 and all_nodes(e.func.value) and is_C(e.args[0]):
+            return True
+        if isinstance(e, ast.BinOp) and isinstance(e.op, ast.Sub) and all_nodes(e.left) and is_C(e.right):
+            return True
+        if isinstance(e, (ast.ListComp, ast.SetComp, ast.GeneratorExp)) and len(e.generators) == 1 and all_nodes(e.generators[0].iter) and isinstance(e.elt, ast.Name) and isinstance(e.generators[0].target, ast.Name) and e.elt.id == e.generators[0].target.id:
+            ifs = e.generators[0].ifs
+            if len(ifs) == 1 and isinstance(ifs[0], ast.Compare) and len(ifs[0].ops) == 1 and isinstance(ifs[0].ops[0], ast.NotIn) and isinstance(ifs[0].left, ast.Name) and ifs[0].left.id == e.elt.id and is_C(ifs[0].comparators[0]):
+                return True
+        if isinstance(e, ast.Call) and getattr(e.func, "id", None) in ("set", "list", "tuple", "sorted") and len(e.args) == 1:
+            return complement_of_C(e.args[0])
+        return False
+
+    par = {}
+    for nd in ast.walk(fn.node):
+        for ch in ast.iter_child_nodes(nd):
+            par[ch] = nd
+    n_rm = n_sub = 0
+    for c in ast.walk(fn.node):
+        if not isinstance(c, ast.Call):
+            continue
+        nm = getattr(c.func, "attr", getattr(c.func, "id", None))
+        if nm == "subhypergraph":
+            n_sub += 1
+            arg = next((k.value for k in c.keywords if k.arg == "nodes"), c.args[1] if len(c.args) > 1 else None)
+            ok = arg is not None and is_C(arg) and not any(k.arg == "edges" for k in c.keywords) and len(c.args) <= 2
+            res.inst("Q-LCC", f"largest_connected_hypergraph:{c.lineno} the copy is the sub-network induced by the selected component", ok)
+            if not ok:
+                res.add(mk_finding(PROP, "Q-LCC", fn, c, f"largest_connected_hypergraph: `{unparse(c, 60)}` is not subhypergraph(H, nodes=<the selected component>)", role="copy"))
+        if nm in ("remove_nodes_from", "remove_node") and c.args:
+            n_rm += 1
+            ok = nm == "remove_nodes_from" and complement_of_C(c.args[0])
+            if not ok:
+                # element-wise or component-wise removal under a guard that refers to the selected component itself
+                guards = []
+                q = c
+                loops = []
+                while q in par:
+                    prev, q = q, par[q]
+                    if isinstance(q, ast.If) and prev is not q.test:
+                        guards.append((q.test, prev in q.body))
+                    if isinstance(q, ast.For):
+                        loops.append(q)
+                a = c.args[0]
+                for t, br in guards:
+                    if isinstance(t, ast.Compare) and len(t.ops) == 1 and isinstance(t.left, ast.Name) and isinstance(a, ast.Name) and t.left.id == a.id and is_C(t.comparators[0]):
+                        op = t.ops[0]
+                        if nm == "remove_node" and ((isinstance(op, ast.NotIn) and br) or (isinstance(op, ast.In) and not br)) and any(all_nodes(lp.iter) for lp in loops):
+                            ok = True
+                        if nm == "remove_nodes_from" and ((isinstance(op, (ast.IsNot, ast.NotEq)) and br) or (isinstance(op, (ast.Is, ast.Eq)) and not br)):
+                            ok = True
+            res.inst("Q-LCC", f"largest_connected_hypergraph:{c.lineno} the in-place mode removes exactly the nodes outside the selected component", ok)
+            if not ok:
+                res.add(mk_finding(PROP, "Q-LCC", fn, c, f"largest_connected_hypergraph: `{unparse(c, 60)}` does not remove the complement of the selected component `{C}` (it is not `all nodes - {C}`, nor guarded by membership in / identity with `{C}`); when several components tie for the largest size the in-place result keeps more than one of them, is not connected, and differs from the copy mode", role="in_place"))
+    if n_rm < 1 or n_sub < 1:
+        raise AnalysisError("largest_connected_hypergraph: copy / in-place steps not found (extractor does not recognise the code)")
 
 
 def truthy_default_sites(fn_node):
